@@ -23,8 +23,10 @@ sequence untouched. -/
 theorem measured_blocks_timeline (s : SeqState) (op : Op) (hm : s.measured.isSome = true)
     (ht : changesTimeline op = true) :
     (stepRaw s op).err = some .measured ∧ (stepRaw s op).st = s := by
+  have hne : s.measured ≠ none := by
+    intro h; rw [h] at hm; simp at hm
   cases op <;> simp [changesTimeline] at ht <;>
-    simp [stepRaw, hm, fail, store, markNonEmpty, targetCore, delayCore]
+    simp [stepRaw, hm, hne, fail, store, markNonEmpty, targetCore, delayCore, delayChecked]
 
 /-- **A channel name can be declared once on any device.** -/
 theorem name_once (s : SeqState) (n chId : Nat) (init : Option (List Nat))
@@ -130,7 +132,7 @@ theorem undeclared_refused (s : SeqState) (n : ChName) (hm : s.measured.isSome =
     (∀ qs, (stepRaw s (.target qs n)).err = some .notDeclared) := by
   refine ⟨fun p proto => ?_, fun d r => ?_, fun qs => ?_⟩
   · simp [stepRaw, hm, SeqState.validateChannel, hc, fail, store, markNonEmpty]
-  · simp [stepRaw, delayCore, hm, SeqState.validateChannel, hc, fail, store]
+  · simp [stepRaw, delayCore, delayChecked, hm, SeqState.validateChannel, hc, fail, store]
   · simp [stepRaw, targetCore, hm, SeqState.validateChannel, hc, fail, store]
 
 /-! ### Non-vacuity -/
